@@ -94,6 +94,7 @@ class AoefSim:
         self.states = set()
         self.skew = {}  # node -> seconds its clock is off
         self.memdocs = {}  # in-memory AOEF documents kept by a node
+        self.locales = {}  # node -> LC_CTYPE of that "machine"
         self.known = []
         self.known_hits = Counter()
         os.makedirs(run_dir, exist_ok=True)
@@ -137,6 +138,7 @@ class AoefSim:
         self.sim_span[1] = max(self.sim_span[1], self.now)
         local = self.now + dt.timedelta(seconds=self.skew.get(node, 0))
         return {
+            "locale": self.locales.get(node, "C.utf8"),
             "clock": local.isoformat(),
             "uuid_stream": (self.seed_tag + self.i) & 0xFFFF,
             "fault": fault,
@@ -257,6 +259,11 @@ class AoefSim:
             self.record(op, "ok")
             self.trace.append(("restart",))
             self.probes.hit("restart")
+        elif kind == "locale":
+            self.locales[op["node"]] = op["name"]
+            self.record(op, "ok")
+            self.trace.append(("locale", op["name"]))
+            self.probes.hit(f"node-locale:{op['name']}")
         elif kind == "skew":
             self.skew[op["node"]] = op["seconds"]
             self.record(op, "ok")
@@ -1370,6 +1377,13 @@ def gen_ops(rng, cfg, seed_tag) -> list:
         if any(keep):
             names = [nm for nm, k in zip(names, keep) if k]
             weights = [w for w, k in zip(weights, keep) if k]
+    if rng.random() < 0.2:
+        # machines differ in their locale: on some, the default text
+        # encoding is ASCII
+        ascii_node = rng.randrange(cfg["n_nodes"])
+        for n in range(cfg["n_nodes"]):
+            if n == ascii_node or rng.random() < 0.3:
+                gen.emit({"op": "locale", "node": n, "name": "C"})
     if cfg["n_nodes"] > 1 and rng.random() < 0.3:
         for n in range(cfg["n_nodes"]):
             gen.emit({"op": "skew", "node": n, "seconds": rng.choice(
@@ -1469,6 +1483,7 @@ CORE_PROBES = {
         "shape:bulk-world>=100-recordings",
         "save:document>=100kB",
         "clock-skew-between-nodes",
+        "node-locale:C",
     ]
     + [f"load:checked:{t}" for t in COLLECTION_TYPE.values()]
     + WRITE_FAULTS
